@@ -79,6 +79,7 @@ class Ctx:
         self.calls = 0
         self.handles: list = []  # (label, handle, expected outputs) for the C16 monitor
         self.closed_blocks: list = []
+        self.dead: list = []  # copyable wires of closed frames: (W, kind of the closed frame)
         self.cfgs: list = []
         self.features: set = set()
 
@@ -625,9 +626,16 @@ def _consume(ctx, ws):
             w.used = True
 
 
+def _retire(ctx: Ctx, frame: Frame):
+    for wid in frame.wires:
+        w = ctx.wires[wid]
+        if not lin(w.ty):
+            ctx.dead.append((w, frame.kind))
+
+
 def _pop_to_parent(ctx: Ctx, node, out_types, label):
     """The innermost frame is closed; its container node yields `out_types` in the parent frame."""
-    ctx.frames.pop()
+    _retire(ctx, ctx.frames.pop())
     if ctx.frames:
         for i, t in enumerate(out_types):
             ctx.new_wire(t, node.out(i), node)
@@ -655,23 +663,22 @@ def _close_df(ctx: Ctx, ws):
         f["out"] = row
         f["open"] = False
         f["insts"] = _insts(ctx.sc, f)
-        ctx.frames.pop()
+        _retire(ctx, ctx.frames.pop())
     elif top.kind == "case":
         info = top.info
         rows, other = info["rows"], info["other"]
         if info["style"] == "cond":
             cb, ci = info["cond"], info["case_idx"]
-            ctx.frames.pop()
             if ci + 1 < len(rows):
+                _retire(ctx, ctx.frames.pop())
                 case = cb.add_case(ci + 1)
                 ctx.push("case", case, [*rows[ci + 1], *other], cond=cb, case_idx=ci + 1, rows=rows, other=other, want=row, style="cond")
             else:
-                ctx.frames.append(top)  # so that _pop_to_parent pops it
                 ctx.handles.append(("add_conditional builder", cb, len(row)))
                 _pop_to_parent(ctx, cb.parent_node, row, "add_conditional.parent_node")
         else:
             if info["case_idx"] == 1:
-                ctx.frames.pop()
+                _retire(ctx, ctx.frames.pop())
                 el = b.add_else()
                 ctx.push("case", el, [*rows[0], *other], cond=None, case_idx=0, rows=rows, other=other, want=row, style="if")
             else:
@@ -717,7 +724,7 @@ def _close_block(ctx: Ctx, call):
     ctx.handles.append(("block builder", blk, nsucc))
     # copyable wires of this block are visible (Dom edges) in blocks it is known to dominate
     my_dom = list(top.info.get("dom_wires", [])) + [ctx.wires[i] for i in top.wires if not lin(ctx.wires[i].ty)]
-    ctx.frames.pop()  # the block frame; the cfgholder frame stays
+    _retire(ctx, ctx.frames.pop())  # the block frame; the cfgholder frame stays
     node = blk.parent_node
     if mode == "exit":
         cb.branch_exit(node[0])
